@@ -294,3 +294,7 @@ mod tests {
         assert_eq!(buffered.try_poll_next_unpin(&mut cx), Poll::Ready(None));
     }
 }
+
+#[cfg(futures_buffered_verif)]
+#[path = "/verif/hooks/try_buffered.rs"]
+mod verif_hooks;
